@@ -182,6 +182,10 @@ func c08Batch(c *ctx, nd int, id string) zh.Batch {
 		absent = []string{"body", "tag"}[c.R.Intn(2)]
 	}
 	// or the segment knows a field (every document carries it, stored) but no document has a term in it
+	freq0Field := ""
+	if c.R.Chance(4) {
+		freq0Field = []string{"body", "tag"}[c.R.Intn(2)]
+	}
 	tokenless := ""
 	if absent == "" && c.R.Chance(5) {
 		tokenless = []string{"body", "tag"}[c.R.Intn(2)]
@@ -197,6 +201,7 @@ func c08Batch(c *ctx, nd int, id string) zh.Batch {
 				continue
 			}
 			f := zh.Field{Name: fn, Len: 1}
+			freq0 := freq0Field == fn
 			seen := map[string]bool{}
 			for k := c.R.Intn(4); k >= 0; k-- {
 				t := asciiTerm(c)
@@ -209,6 +214,10 @@ func c08Batch(c *ctx, nd int, id string) zh.Batch {
 				seen[t] = true
 				tok := zh.Tok{Term: t, Freq: 1}
 				if c.R.Chance(6) {
+					tok.Locs = []zh.Loc{{Pos: 1, Start: 0, End: 1}}
+				}
+				if freq0 { // a field indexed without frequencies but with term vectors
+					tok.Freq = 0
 					tok.Locs = []zh.Loc{{Pos: 1, Start: 0, End: 1}}
 				}
 				f.Toks = append(f.Toks, tok)
